@@ -1,0 +1,34 @@
+//go:build verif
+
+// Contracts for package bcd, read by the /verif VC generator (govc).
+// This file contains comments only; it is compiled only with -tags verif.
+//
+// verif:package github.com/uhppoted/uhppote-core/encoding/bcd
+package bcd
+
+//@ func Encode
+//@   returns (res, err)
+//@   ensures total:   err == nil <==> (forall k int :: 0 <= k && k < len(s) ==> bcd.isdigit(s[k]))
+//@   ensures shape:   err == nil ==> res != nil && fresh(*res) && len(*res) == (len(s) + 1) / 2
+//@   ensures digits:  err == nil ==> (forall j int :: 0 <= j && j < len(*res) ==> (*res)[j] == bcd.enc(s, j))
+//@   ensures failure: err != nil ==> res == nil
+//@   loop 1
+//@     invariant pos:    0 <= $pos && $pos <= len(s)
+//@     invariant ix:     ix == bcd.par(s) + $pos
+//@     invariant valid:  forall k int :: 0 <= k && k < $pos ==> bcd.isdigit(s[k])
+//@     invariant buf:    fresh(bytes) && len(bytes) == N && N == (len(s) + 1) / 2
+//@     invariant filled: forall j int :: 0 <= j && j < N ==> bytes[j] == bcd.partial(s, j, ix)
+//@     decreases len(s) - $pos
+
+//@ func Decode
+//@   returns (res, err)
+//@   ensures total:   err == nil <==> (forall k int :: 0 <= k && k < len(bytes) ==> bcd.hi(bytes[k]) <= 9 && bcd.lo(bytes[k]) <= 9)
+//@   ensures length:  err == nil ==> len(res) == 2 * len(bytes)
+//@   ensures digits:  err == nil ==> (forall k int :: 0 <= k && k < len(bytes) ==> res[2*k] == 48 + bcd.hi(bytes[k]) && res[2*k+1] == 48 + bcd.lo(bytes[k]))
+//@   ensures failure: err != nil ==> len(res) == 0
+//@   loop 1
+//@     invariant idx:    -1 <= rangeindex && rangeindex < len(bytes)
+//@     invariant valid:  forall k int :: 0 <= k && k <= rangeindex ==> bcd.hi(bytes[k]) <= 9 && bcd.lo(bytes[k]) <= 9
+//@     invariant length: s.len == 2 * (rangeindex + 1)
+//@     invariant chars:  forall k int :: 0 <= k && k <= rangeindex ==> s.chars[2*k] == 48 + bcd.hi(bytes[k]) && s.chars[2*k+1] == 48 + bcd.lo(bytes[k])
+//@     decreases len(bytes) - rangeindex
